@@ -9,6 +9,9 @@
 //   rl  <c|x> <cap> <depth> <keys-hex>
 //   vt  <c|x> <cap> <depth> <echo> <keys-hex>
 //   vtx <c|x> <cap> <depth> <alpha> <L> <prefix-hex>   digest over a tree of key sequences
+//   lc  <c|x> <cap> <depth> <maxlen> <keys-hex>        keys, then readline_linecpy into exactly maxlen bytes
+// (ext) sl tokens: N<int>:<hex> sline_newdata with the int length as given; c igris::sline::clear;
+//                  s<len>,<cur> igris::sline::set_size_and_cursor
 #include "common/hv.h"
 #include "C15/iface.h"
 #include <deque>
@@ -323,6 +326,75 @@ struct ref_screen
     }
 };
 
+// Second, decoder-free oracle (the grammar of lean/IgrisModel/C15/Keys.lean): the typed bytes are cut into key
+// presses (level 1: Enter = CR | LF | CR LF | LF CR, Ctrl-C transparent for the pairing; level 2: ESC [ A/B/C/D,
+// ESC [ 3 x, unknown ESC x / ESC [ x ignored, Ctrl-C aborts a sequence) and a key-press editor consumes them.
+// No escape state, no "previous byte": the whole session is parsed at once.
+struct key_editor
+{
+    size_t cap, depth;
+    std::string left, right;
+    std::deque<std::string> hist;
+    size_t browse = 0;
+    std::vector<std::string> events; // "X<hex>" / "S"
+    key_editor(size_t c, size_t d) : cap(c), depth(d), hist(d, std::string()) {}
+    enum { NL = -1, INTR = -2 };
+    void fresh() { left.clear(); right.clear(); browse = 0; }
+    void run(const std::string &bytes)
+    {
+        std::vector<int> sy;
+        int pair = -1; // the byte that would be the second half of the Enter just seen
+        for (unsigned char c : bytes)
+        {
+            if (c == 3) sy.push_back(INTR);
+            else if (c == '\r' || c == '\n')
+            {
+                if (pair == c) pair = -1;
+                else { sy.push_back(NL); pair = c == '\r' ? '\n' : '\r'; }
+            }
+            else { sy.push_back(c); pair = -1; }
+        }
+        size_t i = 0, n = sy.size();
+        auto intr = [&]() { fresh(); events.push_back("S"); };
+        while (i < n)
+        {
+            int s = sy[i++];
+            if (s == INTR) intr();
+            else if (s == NL)
+            {
+                std::string l = left + right;
+                events.push_back("X" + hex(l));
+                if (depth && !l.empty() && l != hist[0]) { hist.push_front(l.substr(0, l.find('\0'))); hist.pop_back(); }
+                fresh();
+            }
+            else if (s == 8) { if (!left.empty()) left.pop_back(); }
+            else if (s != 27) { if (left.size() + right.size() + 1 < cap) left.push_back((char)s); }
+            else
+            {
+                if (i == n) break;
+                int d = sy[i++];
+                if (d == INTR) { intr(); continue; }
+                if (d != '[') continue; // unknown ESC x (x may be Enter)
+                if (i == n) break;
+                int e = sy[i++];
+                if (e == INTR) { intr(); continue; }
+                switch (e)
+                {
+                case 'A': if (depth && browse < depth) { left = hist[browse++]; right.clear(); } break;
+                case 'B': if (depth && browse > 0) { browse--; left = browse ? hist[browse - 1] : std::string(); right.clear(); } break;
+                case 'C': if (!right.empty()) { left.push_back(right[0]); right.erase(0, 1); } break;
+                case 'D': if (!left.empty()) { right.insert(right.begin(), left.back()); left.pop_back(); } break;
+                case '3':
+                    if (!right.empty()) right.erase(0, 1);
+                    if (i < n) { if (sy[i] == INTR) intr(); i++; }
+                    break;
+                default: break; // unknown ESC [ x
+                }
+            }
+        }
+    }
+};
+
 static const std::string PROMPT = "$ ";
 
 static bool screen_safe(uint8_t c) { return (c >= 0x20 && c <= 0x7e) || c == 8 || c == 13 || c == 10 || c == 27 || c == 3; }
@@ -364,6 +436,24 @@ struct session
             fail = w + " after keys " + hex(keys);
     }
     std::string keys;
+    std::vector<std::string> allev; // every callback event of the session, in order
+    bool last_accept = false;
+    // the whole session against the key grammar (decoder-free oracle)
+    void check_grammar(unsigned depth)
+    {
+        key_editor ke(cap, depth);
+        ke.run(keys);
+        if (ke.events != allev)
+        {
+            size_t i = 0;
+            while (i < ke.events.size() && i < allev.size() && ke.events[i] == allev[i]) i++;
+            bad("callback event #" + std::to_string(i) + " is " + (i < allev.size() ? allev[i] : std::string("missing")) +
+                    ", the key grammar expects " + (i < ke.events.size() ? ke.events[i] : std::string("none")),
+                keys);
+        }
+        else if (!(cxx && last_accept) && (v->text() != ke.left + ke.right || v->cursor() != ke.left.size()))
+            bad("final line / cursor differ from the key-press editor's '" + hex(ke.left + ke.right) + "' / " + std::to_string(ke.left.size()), keys);
+    }
     session(bool cxx_, unsigned cap_, unsigned depth, bool echo_)
         : v(cxx_ ? make_vterm_x(cap_, depth, echo_) : make_vterm_c(cap_, depth, echo_)), ref(cap_, depth, true), cxx(cxx_), echo(echo_), cap(cap_)
     {
@@ -402,8 +492,10 @@ struct session
         bool full = ref.len() + 1 >= cap;
         int esc_before = ref.esc;
         v->key(c);
+        for (auto &e : v->evs) allev.push_back(e.exec ? "X" + hex(e.line) : std::string("S"));
         std::string acc;
         int r = ref.key(c, acc);
+        last_accept = r == 1;
         // ---- events
         std::string es;
         if (want_record)
@@ -805,6 +897,7 @@ static void run_vt(const std::vector<std::string> &w, out &o)
     std::string res = "I" + hex(s.init_step());
     for (uint8_t c : keys)
         res += " " + s.key(c);
+    s.check_grammar(depth);
     o.result = res;
     if (!s.fail.empty()) o.fail(s.fail);
     o.tags = session::tagstr(s.tagbits);
@@ -855,6 +948,7 @@ static void run_vtx(const std::vector<std::string> &w, out &o)
                 d.key(*s.v);
             }
             count++;
+            s.check_grammar(depth);
             if (!s.fail.empty() && firstfail.empty()) firstfail = s.fail;
             alltags |= s.tagbits;
             walk(left - 1);
